@@ -14,7 +14,8 @@ exactly when their normal forms are equal (n/m + 1 and (n + m)/m differ for -m <
 from .facts import kids, strip, walk, is_call, call_args, call_object, callee, render, literal, noid
 
 NS = "occa::lang::"
-TRANSPARENT_CALLS = ("::wrapInParentheses", "::clone", "::cloneExprNode", "::to")
+TRANSPARENT_CALLS = ("::wrapInParentheses", "::clone", "::cloneExprNode", "::to", "expr::parens", "expr::popExprNode", "expr::createStatement")
+DSL_OPS = ("+", "-", "*", "/", "%", "+=", "-=", "<", "<=", ">", ">=")
 IGNORED_STMTS = ("CXXDeleteExpr", "NullStmt")
 
 
@@ -151,12 +152,14 @@ def show(t):
         return str(t[1])
     if t[0] == "s":
         return t[1]
+    if len(t) != 3:
+        return "<%s>" % " ".join(str(x) for x in t)
     return "(%s %s %s)" % (show(t[1]), t[0], show(t[2]))
 
 
 # ---- abstract execution of a builder ---------------------------------------------------------------------------------
 class Builder:
-    def __init__(self, prog, fn, fields, config, params=None, optable=None):
+    def __init__(self, prog, fn, fields, config, params=None, optable=None, sym_sources=None, op_sources=None, cond_fallback=None):
         """fields : {member qualified-name suffix: symbol} for the header fields that denote user expressions
         config : {condition text (ids removed, blanks removed): bool} for the header facts
         params : {parameter name: symbol}"""
@@ -164,6 +167,10 @@ class Builder:
         self.params = params or {}
         self.env = {}
         self.why = {}
+        self.sym_sources = sym_sources      # callable(node) -> term | None: nodes that denote parts of the user's loop header
+        self.op_sources = op_sources        # callable(node) -> operator spelling | None
+        self.cond_fallback = cond_fallback  # callable(node) -> bool | None for conditions that are not header facts
+        self.captures = []                  # (kind, target text, term): values stored into statements / declarations
         if optable is None:
             from .paren import operator_table
             optable = operator_table(prog)
@@ -176,6 +183,21 @@ class Builder:
             return not self.cond(kids(e)[0])
         if e["k"] == "ParenExpr":
             return self.cond(kids(e)[0])
+        if e["k"] == "CXXMemberCallExpr" and callee(e).endswith("::operator bool"):
+            return self.cond(call_object(e))
+        if e["k"] in ("CXXOperatorCallExpr", "BinaryOperator") and e.get("op") == "&":
+            # flag test `V & (A | B)`: true iff one of the named flags is set in the configuration ("flag:<name>")
+            mask = [x.get("n", "").split("::")[-1] for x in walk(kids(e)[-1]) if x["k"] == "DeclRefExpr" and "Type::" in x.get("n", "")]
+            if mask and all(("flag:" + m) in self.config for m in mask):
+                return any(self.config["flag:" + m] for m in mask)
+        if e["k"] == "DeclRefExpr" and e.get("loc") and self.env.get(e.get("d")) and self.env[e["d"]][0] == "b":
+            return self.env[e["d"]][1]
+        if self.cond_fallback is not None:
+            v = self.cond_fallback(e)
+            if v is not None:
+                return v
+        if e["k"] == "MemberExpr" and ("member:" + e.get("n", "").split("::")[-1]) in self.config:
+            return self.config["member:" + e.get("n", "").split("::")[-1]]
         key = noid(render(e, False)).replace(" ", "")
         while key.startswith("(") and key.endswith(")") and key not in self.config:
             key = key[1:-1]
@@ -186,6 +208,10 @@ class Builder:
     # operators ----------------------------------------------------------------------------------------------------
     def op(self, e):
         e = strip(e)
+        if self.op_sources is not None:
+            o = self.op_sources(e)
+            if o is not None:
+                return o
         if e["k"] == "ConditionalOperator":
             return self.op(kids(e)[1] if self.cond(kids(e)[0]) else kids(e)[2])
         if e["k"] == "DeclRefExpr":
@@ -202,9 +228,26 @@ class Builder:
         e = strip(e)
         k = e["k"]
         c = kids(e)
+        if self.sym_sources is not None:
+            t = self.sym_sources(e)
+            if t is not None:
+                return t
         if k in ("ExprWithCleanups", "MaterializeTemporaryExpr", "CXXBindTemporaryExpr", "ParenExpr", "CXXDefaultArgExpr"):
             return self.ev(c[0], depth + 1)
+        if k == "CXXOperatorCallExpr" and e.get("op") in DSL_OPS and callee(e).startswith(NS + "operator") and len(c) == 3:
+            return (e["op"], self.ev(c[1], depth + 1), self.ev(c[2], depth + 1))
+        if is_call(e) and callee(e) == NS + "expr::binaryOpExpr":
+            a = call_args(e)
+            return (self.op(a[0]), self.ev(a[1], depth + 1), self.ev(a[2], depth + 1))
+        if k in ("CXXConstructExpr", "CXXTemporaryObjectExpr") and callee(e) == NS + "expr::expr":
+            if len(c) == 0:
+                return ("empty",)
+            return self.ev(c[-1], depth + 1)      # (node) / (variable) / (token, variable) / (token, primitive)
+        if k in ("CXXConstructExpr", "CXXTemporaryObjectExpr") and callee(e) == NS + "variableDeclaration::variableDeclaration" and len(c) == 2:
+            return ("decl", self.ev(c[0], depth + 1), self.ev(c[1], depth + 1))
         lit = literal(e)
+        if isinstance(lit, bool) and k == "CXXBoolLiteralExpr":
+            return ("b", lit)
         if isinstance(lit, int) and not isinstance(lit, bool):
             return ("c", lit)
         if k == "DeclRefExpr":
@@ -305,6 +348,27 @@ class Builder:
         if e["k"] == "BinaryOperator" and e.get("op") == "=" and strip(kids(e)[0])["k"] == "DeclRefExpr" and strip(kids(e)[0]).get("loc"):
             self.bind(strip(kids(e)[0])["d"], kids(e)[1])
             return None
+        if e["k"] == "CXXOperatorCallExpr" and e.get("op") == "=" and len(kids(e)) == 3 and strip(kids(e)[1])["k"] == "DeclRefExpr" and strip(kids(e)[1]).get("loc"):
+            self.bind(strip(kids(e)[1])["d"], kids(e)[2])
+            return None
+        if e["k"] == "BinaryOperator" and e.get("op") == "=" and strip(kids(e)[0])["k"] == "MemberExpr":
+            try:
+                self.captures.append(("assign", strip(kids(e)[0]), self.ev(kids(e)[1])))
+            except TermError as ex:
+                self.captures.append(("assign", strip(kids(e)[0]), ("unknown", str(ex))))
+            return None
+        if e["k"] == "CXXMemberCallExpr" and callee(e).endswith("::push_back") and len(call_args(e)) == 1:
+            try:
+                self.captures.append(("push", e, self.ev(call_args(e)[0])))
+            except TermError as ex:
+                self.captures.append(("push", e, ("unknown", str(ex))))
+            return None
+        if e["k"] == "CXXMemberCallExpr" and len(call_args(e)) == 1:
+            try:
+                self.captures.append(("call", e, self.ev(call_args(e)[0])))
+            except TermError:
+                pass
+            return None
         if e["k"] in ("CXXDeleteExpr",):
             return None
         if k in ("ForStmt", "WhileStmt", "DoStmt", "CXXForRangeStmt", "SwitchStmt"):
@@ -321,3 +385,49 @@ class Builder:
         if r is None:
             raise TermError("control falls off the end")
         return r
+
+    def effects(self):
+        """for void builders: run to the end and return the captured stores"""
+        body = self.f.d.get("body")
+        if body is None:
+            raise TermError("no body")
+        self.run(body)
+        return self.captures
+
+
+def nf_deep(t):
+    """normal form of the arithmetic parts of a term whose top may be an assignment / comparison / declaration"""
+    if t[0] in ("+=", "-=", "<", "<=", ">", ">=", "decl") or t[0].startswith("OP:"):
+        return (t[0], nf_deep(t[1]), nf_deep(t[2]))
+    if t[0] in ("unknown", "empty", "null"):
+        return t
+    return normal_form(t)
+
+
+def member_chain(fn, e, depth=0):
+    """(index of the root parameter or None, [member names from the root outwards]) of an access path, following casts, *, &,
+    calls on the object (`.to<T>()`, `.variable()`) and single-definition locals"""
+    e = strip(e)
+    if e is None or depth > 30:
+        return None, []
+    k = e["k"]
+    if k in ("ParenExpr", "ExprWithCleanups", "MaterializeTemporaryExpr", "CXXBindTemporaryExpr") or (k == "UnaryOperator" and e.get("op") in ("*", "&")):
+        return member_chain(fn, kids(e)[0], depth + 1)
+    if k == "MemberExpr":
+        r, ch = member_chain(fn, kids(e)[0], depth + 1) if kids(e) else (None, [])
+        return r, ch + [e.get("n", "")]
+    if k == "CXXMemberCallExpr" and call_object(e) is not None:
+        r, ch = member_chain(fn, call_object(e), depth + 1)
+        return r, ch + [callee(e) + "()"]
+    if k == "CXXOperatorCallExpr" and e.get("op") == "[]":
+        return member_chain(fn, kids(e)[1], depth + 1)
+    if k in ("CXXConstructExpr", "CXXTemporaryObjectExpr") and len(kids(e)) == 1:
+        return member_chain(fn, kids(e)[0], depth + 1)
+    if k == "DeclRefExpr":
+        ps = [p["d"] for p in fn.d["params"]]
+        if e.get("d") in ps:
+            return ps.index(e["d"]), []
+        ds = fn.local_defs().get(e.get("d"), [])
+        if len(ds) == 1 and ds[0]["k"] == "VarDecl" and kids(ds[0]):
+            return member_chain(fn, kids(ds[0])[0], depth + 1)
+    return None, []
